@@ -156,7 +156,12 @@ func (e *Engine) liveness(fn *ssa.Function) *fnLiveness {
 // usedLater reports whether some use of v can still execute from (block, ip): a use later in this block, in a block
 // reachable from it, or (when the block is inside a loop) anywhere in this block. A value without referrer
 // information counts as used.
+var oldLiveness = os.Getenv("VERIF_OLDLIVE") != ""
+
 func (l *fnLiveness) usedLater(v ssa.Value, block *ssa.BasicBlock, ip int) bool {
+	if oldLiveness {
+		return true
+	}
 	refs := v.Referrers()
 	if refs == nil {
 		return true
@@ -394,6 +399,13 @@ func (e *Engine) mergeAtJoin(a, b *State) (*State, bool) {
 	mf := m.top()
 	nregs := map[ssa.Value]Value{}
 	for _, v := range live {
+		// two different CONCRETE 64-bit integers in one live register are loop counters, indexes or lengths of different
+		// iterations/shapes: merging them into an ite would make every later index, slice bound and tag symbolic
+		if ta, ok := fa.regs[v].(*Term); ok {
+			if tb, ok2 := fb.regs[v].(*Term); ok2 && ta.IsConst() && tb.IsConst() && ta.Sort.Kind == 'V' && ta.Sort.Width == 64 && ta.Val != tb.Val {
+				return jf("live register holds different concrete integers: " + fa.fn.Name() + "." + v.Name())
+			}
+		}
 		mv, ok := mergeValue(condA, fa.regs[v], fb.regs[v])
 		if !ok {
 			return jf(fmt.Sprintf("reg %s.%s:%d %T", fa.fn.Name(), v.Name(), fa.block.Index, fa.regs[v]))
